@@ -38,7 +38,7 @@ the model's status and unread bytes, for every property table and every data -/
 theorem C05_buffer_getAny_from_source (b : IBuf) (h : Inv b) (tbl : PropTable)
     (oldOf : UInt8 → List PropOcc → Bytes) :
     abs (b.getAny tbl oldOf).1 = ((abs b).getAny tbl oldOf).1 ∧ (b.getAny tbl oldOf).2 = ((abs b).getAny tbl oldOf).2
-    ∧ Inv (b.getAny tbl oldOf).1 :=
+    ∧ Inv (b.getAny tbl oldOf).1 ∧ (b.getAny tbl oldOf).1.data.length = b.data.length :=
   getAny_refines b h tbl oldOf
 
 /-- **C04/C05 read off the translated source.** Started anywhere inside the data with no panic or hang behind it, the
@@ -63,6 +63,21 @@ theorem C05_buffer_getAny_safe_from_source (b : IBuf) (h : Inv b) (hs : b.st ≠
   have hm := getAny_safe (abs b) tbl oldOf hs
   rw [← e1, ← e2, rest_length, rest_length] at hm
   exact hm
+
+/-- **the lesson of D13, as a fact about the source.** `SubAck.UnmarshalBinary` and `UnsubAck.UnmarshalBinary` size their
+reason-code slice with `make([]uint8, len(data)-b.i)` after `b.get(&p.packetID)` and `b.getAny(…)`; a negative size is a
+run-time panic, and before the repair a repeated, second-time-empty reason string produced one. For the cursor of
+/repo as it is now — rendered with its own guards — the offset after those two calls is inside the data whatever the
+data and the property table, and the data has not changed length: the size is never negative -/
+theorem C04_reason_code_slice_size_from_source (data : Bytes) (tbl : PropTable)
+    (oldOf : UInt8 → List PropOcc → Bytes) :
+    ((({ data := data, i := 0 } : IBuf).get decU16 0).1.getAny tbl oldOf).1.i
+      ≤ ((({ data := data, i := 0 } : IBuf).get decU16 0).1.getAny tbl oldOf).1.data.length
+    ∧ ((({ data := data, i := 0 } : IBuf).get decU16 0).1.getAny tbl oldOf).1.data.length = data.length := by
+  have g := get_refines ({ data := data, i := 0 } : IBuf) (inv_fresh data) decU16 0
+  have ga := getAny_refines (({ data := data, i := 0 } : IBuf).get decU16 0).1 g.2.2.1 tbl oldOf
+  refine ⟨ga.2.2.1, ?_⟩
+  rw [ga.2.2.2, g.2.2.2.1]
 
 /-- not vacuous: the D13 input, a reason string given twice, the second time empty, run through the rendered source -/
 example :
